@@ -4,11 +4,15 @@ package nebula
 
 import (
 	"bytes"
+	"encoding/json"
 	"fmt"
 	"net/netip"
 	"os"
+	"os/exec"
+	"path/filepath"
 	"sort"
 	"strings"
+	"sync"
 	"testing"
 
 	"github.com/slackhq/nebula/header"
@@ -117,24 +121,24 @@ type c32Model struct {
 }
 
 type c32Stats struct {
-	abandons          map[int]int64 // by retries
-	completeAtAttempt map[string]int64
-	ambFired, ambHeld int64
-	trigTx, trigQuiet int64
-	lh0Quiet          int64
-	dropped100        int64 // completions where more than 100 packets had been offered
-	fwFiltered        int64 // completions where the rule set removed some but not all packets
-	fwAll, fwNone     int64
-	lateReply         int64
-	maxStored         int
-	minTxBeforeGiveUp map[int]int // by retries: fewest transmissions seen before a handshake was abandoned
-	txThisGen         int
-	exactly100        int64
-	taintedStarts     int64
+	Abandons          map[int]int64 // by retries
+	CompleteAtAttempt map[string]int64
+	AmbFired, AmbHeld int64
+	TrigTx, TrigQuiet int64
+	Lh0Quiet          int64
+	Dropped100        int64 // completions where more than 100 packets had been offered
+	FwFiltered        int64 // completions where the rule set removed some but not all packets
+	FwAll, FwNone     int64
+	LateReply         int64
+	MaxStored         int
+	MinTxBeforeGiveUp map[int]int // by retries: fewest transmissions seen before a handshake was abandoned
+	TxThisGen         int
+	Exactly100        int64
+	TaintedStarts     int64
 }
 
 func c32NewStats() *c32Stats {
-	return &c32Stats{abandons: map[int]int64{}, completeAtAttempt: map[string]int64{}, minTxBeforeGiveUp: map[int]int{}}
+	return &c32Stats{Abandons: map[int]int64{}, CompleteAtAttempt: map[string]int64{}, MinTxBeforeGiveUp: map[int]int{}}
 }
 
 func c32Allowed(fw string, marker int) bool {
@@ -203,7 +207,7 @@ func (m *c32Model) step(e c32Ev, o c32Obs, replyGen int, firstMarker int) []c32P
 				bad("C32: a handshake attempt was not transmitted exactly once to every known remote ("+why+")", "expected one datagram to each of %v, got %v", m.remotes, o.tx)
 			}
 		}
-		m.stats.txThisGen++
+		m.stats.TxThisGen++
 		m.lastTx = c32RemKey(m.remotes)
 	}
 	early := bad
@@ -211,9 +215,9 @@ func (m *c32Model) step(e c32Ev, o c32Obs, replyGen int, firstMarker int) []c32P
 		if m.timer {
 			m.stale = append(m.stale, m.hi)
 		}
-		m.stats.abandons[m.cfg.R]++
-		if v, ok := m.stats.minTxBeforeGiveUp[m.cfg.R]; !ok || m.stats.txThisGen < v {
-			m.stats.minTxBeforeGiveUp[m.cfg.R] = m.stats.txThisGen
+		m.stats.Abandons[m.cfg.R]++
+		if v, ok := m.stats.MinTxBeforeGiveUp[m.cfg.R]; !ok || m.stats.TxThisGen < v {
+			m.stats.MinTxBeforeGiveUp[m.cfg.R] = m.stats.TxThisGen
 		}
 		m.pending, m.timer, m.stored, m.queued = false, false, nil, 0
 	}
@@ -232,15 +236,15 @@ func (m *c32Model) step(e c32Ev, o c32Obs, replyGen int, firstMarker int) []c32P
 			// ◊ the statement is silent on early attempts towards new remotes: transmitting now (to every remote) or not are both accepted
 			if o.txTotal() > 0 {
 				expectTxAll(label)
-				m.stats.trigTx++
+				m.stats.TrigTx++
 			} else {
-				m.stats.trigQuiet++
+				m.stats.TrigQuiet++
 			}
 		} else {
 			if o.txTotal() > 0 {
 				bad("C32: a lighthouse trigger without new remotes retransmitted ahead of the linear delay", "tx=%v counter=%d", o.tx, m.counter)
 			}
-			m.stats.lh0Quiet++
+			m.stats.Lh0Quiet++
 		}
 	}
 	send := func(n int, first int) {
@@ -264,10 +268,10 @@ func (m *c32Model) step(e c32Ev, o c32Obs, replyGen int, firstMarker int) []c32P
 				for _, hi := range m.stale {
 					if hi > m.now {
 						m.tainted = true
-						m.stats.taintedStarts++
+						m.stats.TaintedStarts++
 					}
 				}
-				m.stats.txThisGen = 0
+				m.stats.TxThisGen = 0
 				m.lastTx = ""
 				m.lo, m.hi = m.now+I, m.now+2*I
 				if mk >= 0 {
@@ -320,9 +324,9 @@ func (m *c32Model) step(e c32Ev, o c32Obs, replyGen int, firstMarker int) []c32P
 		default:
 			fire = o.txTotal() > 0 || !o.pending // inside the one tick of slack: follow the node
 			if fire {
-				m.stats.ambFired++
+				m.stats.AmbFired++
 			} else {
-				m.stats.ambHeld++
+				m.stats.AmbHeld++
 			}
 		}
 		if !fire {
@@ -373,25 +377,25 @@ func (m *c32Model) step(e c32Ev, o c32Obs, replyGen int, firstMarker int) []c32P
 			if !o.mainTunnel {
 				bad("C32: reply to the pending handshake did not complete it", "gen=%d counter=%d", m.gen, m.counter)
 			}
-			m.stats.completeAtAttempt[fmt.Sprintf("r%d@%d", m.cfg.R, m.counter)]++
+			m.stats.CompleteAtAttempt[fmt.Sprintf("r%d@%d", m.cfg.R, m.counter)]++
 			if m.queued > c32MaxStored {
-				m.stats.dropped100++
+				m.stats.Dropped100++
 			}
 			if m.queued == c32MaxStored {
-				m.stats.exactly100++
+				m.stats.Exactly100++
 			}
 			switch {
 			case len(allowed) > 0 && len(allowed) < len(m.stored):
-				m.stats.fwFiltered++
+				m.stats.FwFiltered++
 			case len(allowed) == len(m.stored) && len(allowed) > 0:
-				m.stats.fwAll++
+				m.stats.FwAll++
 			case len(allowed) == 0 && len(m.stored) > 0:
-				m.stats.fwNone++
+				m.stats.FwNone++
 			}
 			m.pending, m.timer, m.done, m.stored, m.queued = false, false, true, nil, 0
 		} else {
 			if !m.pending && !m.done {
-				m.stats.lateReply++
+				m.stats.LateReply++
 			}
 			if o.dataTx != 0 {
 				bad("C32: a reply that does not answer the pending handshake released packets", "dataTx=%d pending=%v done=%v replyGen=%d gen=%d", o.dataTx, m.pending, m.done, replyGen, m.gen)
@@ -412,8 +416,8 @@ func (m *c32Model) step(e c32Ev, o c32Obs, replyGen int, firstMarker int) []c32P
 		} else if o.stored != len(m.stored) {
 			bad("C32: number of stored packets differs from min(offered,100)", "stored=%d model=%d offered=%d", o.stored, len(m.stored), m.queued)
 		}
-		if o.stored > m.stats.maxStored {
-			m.stats.maxStored = o.stored
+		if o.stored > m.stats.MaxStored {
+			m.stats.MaxStored = o.stored
 		}
 	}
 	if o.txDiffers {
@@ -853,9 +857,11 @@ func (r *c32Run) bfs(cfg c32Cfg, depth int, halfSteps []int, maxQ, maxLh1 int) {
 }
 
 // scripted executes one history of phase 2 chosen by the enumerator.
-func (r *c32Run) scripted(e *mc.Enum, quick bool) {
-	R := mc.PickOf(e, []int{1, 2, 3})
-	fw := mc.PickOf(e, []string{"p80", "all", "none"})
+func (r *c32Run) scripted(e *mc.Enum, quick bool, R int, fw string) {
+	if R == 0 {
+		R = mc.PickOf(e, []int{1, 2, 3})
+		fw = mc.PickOf(e, []string{"p80", "all", "none"})
+	}
 	n0 := mc.PickOf(e, []int{101, 0, 1, 99, 100, 150})
 	disc := "static"
 	later := mc.PickOf(e, []int{0, 1, 2})
@@ -889,6 +895,9 @@ func (r *c32Run) scripted(e *mc.Enum, quick bool) {
 		}
 		if w.model.counter >= j && len(w.pool1) > 0 {
 			w.apply(c32Ev{"s1", len(w.pool1) - 1})
+			if w.dead {
+				break
+			}
 			if len(w.pool2) == 0 {
 				r.c.Broken("peer did not answer the first message: %v", w.hist)
 			}
@@ -925,6 +934,136 @@ func (r *c32Run) scripted(e *mc.Enum, quick bool) {
 	r.report(w)
 }
 
+type c32Item struct {
+	Kind string // "product" (scripted histories, optionally for one retries/rule-set pair) | "bfs"
+	R    int
+	FW   string
+	Cfg  c32Cfg
+}
+
+func (it c32Item) String() string {
+	if it.Kind == "bfs" {
+		return "bfs " + it.Cfg.String()
+	}
+	return fmt.Sprintf("product retries=%d fw=%s", it.R, it.FW)
+}
+
+func (s *c32Stats) merge(o *c32Stats) {
+	for k, v := range o.Abandons {
+		s.Abandons[k] += v
+	}
+	for k, v := range o.CompleteAtAttempt {
+		s.CompleteAtAttempt[k] += v
+	}
+	for k, v := range o.MinTxBeforeGiveUp {
+		if cur, ok := s.MinTxBeforeGiveUp[k]; !ok || v < cur {
+			s.MinTxBeforeGiveUp[k] = v
+		}
+	}
+	s.AmbFired += o.AmbFired
+	s.AmbHeld += o.AmbHeld
+	s.TrigTx += o.TrigTx
+	s.TrigQuiet += o.TrigQuiet
+	s.Lh0Quiet += o.Lh0Quiet
+	s.Dropped100 += o.Dropped100
+	s.FwFiltered += o.FwFiltered
+	s.FwAll += o.FwAll
+	s.FwNone += o.FwNone
+	s.LateReply += o.LateReply
+	s.Exactly100 += o.Exactly100
+	s.TaintedStarts += o.TaintedStarts
+	if o.MaxStored > s.MaxStored {
+		s.MaxStored = o.MaxStored
+	}
+}
+
+// c32Sharded (thorough tier): the explorer is single-threaded (virtual clock and pinned random stream are
+// process-global), so the work items are spread over worker processes: this test binary re-executed with C32_SHARD=i/n.
+// Workers write their own evidence; their violations are re-reported here from the replay files.
+func c32Sharded(c *mc.Check, r *c32Run, n int, budget float64) (runs int64) {
+	dir, err := os.MkdirTemp("", "c32shard")
+	if err != nil {
+		c.Broken("tempdir: %v", err)
+	}
+	defer os.RemoveAll(dir)
+	outs := make([][]byte, n)
+	var wg sync.WaitGroup
+	for i := 0; i < n; i++ {
+		wg.Add(1)
+		go func(i int) {
+			defer wg.Done()
+			cmd := exec.Command(os.Args[0], "-test.run=^TestVerifC32$", "-test.v", fmt.Sprintf("-test.timeout=%ds", int(budget)+900))
+			cmd.Env = append(os.Environ(), fmt.Sprintf("C32_SHARD=%d/%d", i, n), "VERIF_EVIDENCE="+filepath.Join(dir, fmt.Sprintf("ev%d.json", i)),
+				fmt.Sprintf("VERIF_BUDGET_S=%.0f", budget), "GOMAXPROCS=2")
+			outs[i], _ = cmd.CombinedOutput()
+		}(i)
+	}
+	wg.Wait()
+	for i := 0; i < n; i++ {
+		for _, ln := range strings.Split(string(outs[i]), "\n") {
+			if strings.HasPrefix(ln, "VIOLATION property=C32 replay=") {
+				path := strings.TrimSpace(strings.TrimPrefix(ln, "VIOLATION property=C32 replay="))
+				var rp struct {
+					Signature string `json:"signature"`
+					Detail    any    `json:"detail"`
+				}
+				if b, err := os.ReadFile(path); err == nil && json.Unmarshal(b, &rp) == nil && rp.Signature != "" {
+					c.Violation(rp.Signature, rp.Detail)
+				} else {
+					c.Violation("C32: violation reported by a worker process (replay file unreadable)", ln)
+				}
+			}
+			if strings.HasPrefix(ln, "KNOWN-FINDING:") {
+				fmt.Println(ln)
+			}
+		}
+		b, err := os.ReadFile(filepath.Join(dir, fmt.Sprintf("ev%d.json", i)))
+		if err != nil {
+			tail := string(outs[i])
+			if len(tail) > 3000 {
+				tail = tail[len(tail)-3000:]
+			}
+			c.Broken("worker %d/%d left no evidence:\n%s", i, n, tail)
+		}
+		var ev struct {
+			Coverage map[string]json.RawMessage `json:"coverage"`
+		}
+		if err := json.Unmarshal(b, &ev); err != nil {
+			c.Broken("worker %d evidence: %v", i, err)
+		}
+		num := func(k string) int64 {
+			var f float64
+			_ = json.Unmarshal(ev.Coverage[k], &f)
+			return int64(f)
+		}
+		c.Add("states", num("states"))
+		c.Add("transitions", num("transitions"))
+		c.Add("traces_validated_against_impl", num("traces_validated_against_impl"))
+		if d := c.Counter("max_depth"); num("max_depth") > d.Load() {
+			d.Store(num("max_depth"))
+		}
+		runs += num("scripted_histories")
+		r.events += num("events_executed_on_real_nodes")
+		st := c32NewStats()
+		if err := json.Unmarshal(ev.Coverage["shard_stats"], st); err != nil {
+			c.Broken("worker %d stats: %v", i, err)
+		}
+		r.stats.merge(st)
+		var ex bool
+		_ = json.Unmarshal(ev.Coverage["exhaustive"], &ex)
+		if !ex {
+			c.Capped(fmt.Sprintf("worker %d/%d: %s", i, n, string(ev.Coverage["cap_hit"])))
+		}
+		var ss []any
+		if json.Unmarshal(ev.Coverage["samples"], &ss) == nil {
+			for _, x := range ss {
+				c.Sample(x)
+			}
+		}
+	}
+	return runs
+}
+
 func TestVerifC32(t *testing.T) {
 	c := mc.Begin(t, "C32", "model_checking")
 	defer c.End()
@@ -951,68 +1090,112 @@ func TestVerifC32(t *testing.T) {
 		}
 	}
 
-	// phase 2 first (cheap, diverse): the product of configurations and scripted histories
-	runs, complete := mc.ForAll(func(e *mc.Enum) { r.scripted(e, quick) }, r.stop)
-	c.Set("scripted_histories", runs)
-	if !complete {
-		c.Capped("time budget during the scripted product")
-	}
-
-	// phase 1: BFS over event histories per timing configuration
+	// Work items. Phase 2 first (cheap, diverse): the product of configurations and scripted histories; then phase 1: BFS
+	// over event histories per timing configuration.
 	depth := mc.Pick(c, 5, 8)
 	halfSteps := mc.Pick(c, []int{1, 2, 5}, []int{1, 2, 3, 5, 14})
-	var cfgs []c32Cfg
+	var items []c32Item
+	if quick {
+		items = append(items, c32Item{Kind: "product"})
+	} else {
+		for _, R := range []int{1, 2, 3} {
+			for _, fw := range []string{"p80", "all", "none"} {
+				items = append(items, c32Item{Kind: "product", R: R, FW: fw})
+			}
+		}
+	}
 	for _, R := range []int{1, 2, 3} {
 		for _, disc := range []string{"static", "lh"} {
 			for _, iv := range mc.Pick(c, []vtime.Duration{100 * vtime.Millisecond}, []vtime.Duration{100 * vtime.Millisecond, 250 * vtime.Millisecond}) {
-				cfgs = append(cfgs, c32Cfg{R: R, I: iv, Disc: disc, FW: "p80", N0: 4})
+				items = append(items, c32Item{Kind: "bfs", Cfg: c32Cfg{R: R, I: iv, Disc: disc, FW: "p80", N0: 4}})
 			}
 		}
 	}
 	if !quick {
-		cfgs = append(cfgs, c32Cfg{R: 3, I: 100 * vtime.Millisecond, Disc: "static", FW: "all", N0: 99},
-			c32Cfg{R: 2, I: 100 * vtime.Millisecond, Disc: "static", FW: "none", N0: 0},
-			c32Cfg{R: 5, I: 100 * vtime.Millisecond, Disc: "lh", FW: "p80", N0: 1})
+		items = append(items, c32Item{Kind: "bfs", Cfg: c32Cfg{R: 3, I: 100 * vtime.Millisecond, Disc: "static", FW: "all", N0: 99}},
+			c32Item{Kind: "bfs", Cfg: c32Cfg{R: 2, I: 100 * vtime.Millisecond, Disc: "static", FW: "none", N0: 0}},
+			c32Item{Kind: "bfs", Cfg: c32Cfg{R: 5, I: 100 * vtime.Millisecond, Disc: "lh", FW: "p80", N0: 1}})
 	}
-	for _, cfg := range cfgs {
-		if r.stop() {
-			c.Capped("time budget before BFS of " + cfg.String())
-			break
+	shardI, shardN := 0, 1
+	if sh := os.Getenv("C32_SHARD"); sh != "" {
+		fmt.Sscanf(sh, "%d/%d", &shardI, &shardN)
+	}
+	worker := shardN > 1
+	workers := 0
+	if !quick && !worker && os.Getenv("C32_NOSHARD") == "" {
+		workers = 6
+	}
+	var runs int64
+	if workers > 0 {
+		budget := 900.0
+		if b := os.Getenv("VERIF_BUDGET_S"); b != "" {
+			fmt.Sscanf(b, "%f", &budget)
 		}
-		r.bfs(cfg, depth, halfSteps, mc.Pick(c, 1, 2), mc.Pick(c, 1, 2))
-	}
-	c.Add("transitions", runs)
-	c.Add("traces_validated_against_impl", runs)
-	c.Set("events_executed_on_real_nodes", r.events)
-
-	st := r.stats
-	c.Set("abandons_by_retries", fmt.Sprint(st.abandons))
-	c.Set("completions_by_retries_and_attempt", fmt.Sprint(st.completeAtAttempt))
-	c.Set("timer_slack_window_fired_vs_held", fmt.Sprintf("%d/%d", st.ambFired, st.ambHeld))
-	c.Set("trigger_with_new_remotes_sent_vs_quiet", fmt.Sprintf("%d/%d", st.trigTx, st.trigQuiet))
-	c.Set("trigger_without_new_remotes", st.lh0Quiet)
-	c.Set("completions_with_more_than_100_offered", st.dropped100)
-	c.Set("completions_with_exactly_100_offered", st.exactly100)
-	c.Set("completions_fw_filtered_some_all_none", fmt.Sprintf("%d/%d/%d", st.fwFiltered, st.fwAll, st.fwNone))
-	c.Set("late_replies_after_abandon", st.lateReply)
-	c.Set("max_stored", st.maxStored)
-	c.Set("handshakes_started_with_a_leftover_timer_in_the_wheel", st.taintedStarts)
-	c.Set("min_transmissions_before_give_up_by_retries", fmt.Sprint(st.minTxBeforeGiveUp))
-	c.Set("distinct_outcomes", len(st.completeAtAttempt)+len(st.abandons))
-	c.Set("explanation", "states = distinct canonical (node+model+pool) states of the BFS plus distinct final states of the scripted product; transitions = histories executed on two real nodes; every event of every history is judged against the reference counter model")
-
-	if r.nviol == 0 && !c.OutOfTime() {
-		for _, R := range []int{1, 2, 3} {
-			c.Require(st.abandons[R] > 0, "no abandoned handshake with retries=%d", R)
-			for j := 1; j <= R; j++ {
-				c.Require(st.completeAtAttempt[fmt.Sprintf("r%d@%d", R, j)] > 0, "no completion at attempt %d with retries=%d: %v", j, R, st.completeAtAttempt)
+		budget -= c.Elapsed() + 30
+		if budget < 20 {
+			budget = 20
+		}
+		runs = c32Sharded(c, r, workers, budget)
+		r.nviol = c.Violations()
+		c.Set("worker_processes", workers)
+	} else {
+		for i, it := range items {
+			if i%shardN != shardI {
+				continue
+			}
+			if r.stop() {
+				c.Capped("time budget before item " + it.String())
+				break
+			}
+			switch it.Kind {
+			case "product":
+				n, complete := mc.ForAll(func(e *mc.Enum) { r.scripted(e, quick, it.R, it.FW) }, r.stop)
+				runs += n
+				if !complete {
+					c.Capped("time budget during the scripted product " + it.String())
+				}
+			case "bfs":
+				r.bfs(it.Cfg, depth, halfSteps, mc.Pick(c, 1, 2), mc.Pick(c, 1, 2))
 			}
 		}
-		c.Require(st.ambFired > 0 && st.ambHeld > 0, "timer slack window: fired=%d held=%d", st.ambFired, st.ambHeld)
-		c.Require(st.trigTx > 0 && st.lh0Quiet > 0, "lighthouse triggers: sent=%d quiet-without-new=%d", st.trigTx, st.lh0Quiet)
-		c.Require(st.dropped100 > 0 && st.exactly100 > 0 && st.maxStored == c32MaxStored, "queue bound not reached: >100 offered %d, =100 offered %d, max stored %d", st.dropped100, st.exactly100, st.maxStored)
-		c.Require(st.fwFiltered > 0 && st.fwAll > 0 && st.fwNone > 0, "rule sets: filtered=%d all=%d none=%d", st.fwFiltered, st.fwAll, st.fwNone)
-		c.Require(st.lateReply > 0, "no late reply after an abandoned handshake")
+		c.Add("transitions", runs)
+		c.Add("traces_validated_against_impl", runs)
+	}
+	c.Set("scripted_histories", runs)
+	c.Set("events_executed_on_real_nodes", r.events)
+	if worker {
+		c.Set("shard_stats", r.stats)
+		return
+	}
+
+	st := r.stats
+	c.Set("abandons_by_retries", fmt.Sprint(st.Abandons))
+	c.Set("completions_by_retries_and_attempt", fmt.Sprint(st.CompleteAtAttempt))
+	c.Set("timer_slack_window_fired_vs_held", fmt.Sprintf("%d/%d", st.AmbFired, st.AmbHeld))
+	c.Set("trigger_with_new_remotes_sent_vs_quiet", fmt.Sprintf("%d/%d", st.TrigTx, st.TrigQuiet))
+	c.Set("trigger_without_new_remotes", st.Lh0Quiet)
+	c.Set("completions_with_more_than_100_offered", st.Dropped100)
+	c.Set("completions_with_exactly_100_offered", st.Exactly100)
+	c.Set("completions_fw_filtered_some_all_none", fmt.Sprintf("%d/%d/%d", st.FwFiltered, st.FwAll, st.FwNone))
+	c.Set("late_replies_after_abandon", st.LateReply)
+	c.Set("max_stored", st.MaxStored)
+	c.Set("handshakes_started_with_a_leftover_timer_in_the_wheel", st.TaintedStarts)
+	c.Set("min_transmissions_before_give_up_by_retries", fmt.Sprint(st.MinTxBeforeGiveUp))
+	c.Set("distinct_outcomes", len(st.CompleteAtAttempt)+len(st.Abandons))
+	c.Set("explanation", "states = distinct canonical (node+model+pool) states of the BFS plus distinct final states of the scripted product; transitions = histories executed on two real nodes; every event of every history is judged against the reference counter model")
+
+	if r.nviol == 0 && (workers > 0 || !c.OutOfTime()) {
+		for _, R := range []int{1, 2, 3} {
+			c.Require(st.Abandons[R] > 0, "no abandoned handshake with retries=%d", R)
+			for j := 1; j <= R; j++ {
+				c.Require(st.CompleteAtAttempt[fmt.Sprintf("r%d@%d", R, j)] > 0, "no completion at attempt %d with retries=%d: %v", j, R, st.CompleteAtAttempt)
+			}
+		}
+		c.Require(st.AmbFired > 0 && st.AmbHeld > 0, "timer slack window: fired=%d held=%d", st.AmbFired, st.AmbHeld)
+		c.Require(st.TrigTx > 0 && st.Lh0Quiet > 0, "lighthouse triggers: sent=%d quiet-without-new=%d", st.TrigTx, st.Lh0Quiet)
+		c.Require(st.Dropped100 > 0 && st.Exactly100 > 0 && st.MaxStored == c32MaxStored, "queue bound not reached: >100 offered %d, =100 offered %d, max stored %d", st.Dropped100, st.Exactly100, st.MaxStored)
+		c.Require(st.FwFiltered > 0 && st.FwAll > 0 && st.FwNone > 0, "rule sets: filtered=%d all=%d none=%d", st.FwFiltered, st.FwAll, st.FwNone)
+		c.Require(st.LateReply > 0, "no late reply after an abandoned handshake")
 	}
 	c.Assume("◊ a lighthouse-triggered attempt counts as one of the configured attempts whether or not it transmits (the node counts it; the statement does not say); consequently fewer than `retries` datagrams may be sent to a remote before give-up (see min_transmissions_before_give_up_by_retries)")
 	c.Assume("◊ an attempt triggered by a lighthouse answer with new remotes may transmit at once to every known remote; a trigger without new remotes must stay silent (linear delay)")
